@@ -18,7 +18,7 @@ CONSTANTS
   EarlyReturn = FALSE
   MonoGE = TRUE
   InitJoined = FALSE
-INVARIANTS C10_OpenedStay NoReuse C09_Opens
+INVARIANTS NoReuse
 CONSTRAINT Mark
 POSTCONDITION Accepted
 CHECK_DEADLOCK FALSE
